@@ -11,6 +11,17 @@ RULE = ('seeded histories over the union of the stimuli used for C03-C07 and C12
 SILENCE = {'ping timeout', 'transport close', 'transport error'}
 
 
+def FIXED():
+    """upgrade attempts that fail at each point (alone and overlapping) followed by traffic on polling; connect handlers that send"""
+    out = [h for h in hsuite.overlapping_upgrades()[::2] if not any(o[0] == 'cancel' for o in h)]
+    for bad in ([('frame', 0, ('pk', ('msg', 70, 'none')))], [('frame', 0, ('ping', True)), ('frame', 0, ('pk', ('msg', 71, 'none')))],
+                [('frame', 0, ('ping', False))], [('wsclose', 0)], [('frame', 0, ('ping', True)), ('wsclose', 0)]):
+        out.append([('open', 'polling', 'accept'), ('poll', 0), ('upgrade', 0)] + bad + [('send', 0, 1), ('poll', 0), ('send', 0, 2), ('poll', 0), ('post', 0, ('pk', [('msg', 3, 'none')]))])
+    for opener in (('open', 'polling', 'accept_send'), ('open', 'websocket', 'accept_send', True)):
+        out.append([opener, ('send', 0, 1)] + ([('poll', 0)] if opener[1] == 'polling' else []) + [('send', 0, 2)])
+    return out
+
+
 def first_silence(r):
     """first step in which a session is ended by silence (a timeout found while the clock advances)"""
     v = oracles.View(r)
@@ -26,7 +37,8 @@ def obs(r, upto):
     out = {}
     for s in range(v.n):
         evs = [(k, d) for step, k, d in v.events[s] if step < upto]
-        msgs = [(m, ch[0]) for step, m, ch in v.delivered[s] if step < upto]
+        # what the client of the session is handed, in order: the OPEN packet and the application messages, with their transport
+        msgs = [(p if p == 'open' else p[1], ch[0]) for step, p, ch in v.pkts[s] if step < upto and (p == 'open' or (isinstance(p, tuple) and p[0] == 'msg'))]
         out[s] = (evs, msgs)
     refused = {}
     for rid in r.req_info:
@@ -59,6 +71,11 @@ def compare(cfg, ops):
         # is delivered depends on the order of simultaneous timers (not compared), *that* it is delivered does not
         pair[kind] = r
     upto = min(first_silence(pair['threaded']), first_silence(pair['asyncio']))
+    # a stimulus whose precondition holds on one server only (a cancellation of a handshake task that one of them has already ended) is
+    # executed by one runner only: from there on the two did not receive the same stimuli and their step numbers no longer correspond
+    la, lb = pair['threaded'].log, pair['asyncio'].log
+    common = next((i for i, (x, y) in enumerate(zip(la, lb)) if x != y), min(len(la), len(lb)))
+    upto = min(upto, common)
     a, b = obs(pair['threaded'], upto), obs(pair['asyncio'], upto)
     case = dict(cfg=cfg.key(), ops=ops)
     disc_all = any(op == ('disc', None) for r in pair.values() for op in r.log[:upto])      # (the runners' logs: a stimulus whose precondition does not hold is not executed)
@@ -80,7 +97,11 @@ def compare(cfg, ops):
         # ... and the lagging server must have had no occasion to deliver it: the comparison was cut before the end of the run, the
         # session has ended meanwhile (nothing can be read from it any more), or (by the history, not by the server's own mark) an
         # upgrade of the session is still in progress so that it cannot be read
-        excused = upto < len(rl.log) or ended or oracles.handshake_in_progress(rl, s, len(rl.log) - 1)
+        cut = upto < min(len(x.log) for x in pair.values())          # (the logs differ in length by the final reads alone)
+        excused = cut or ended or oracles.handshake_in_progress(rl, s, len(rl.log) - 1)
+        if ended:
+            # what a session still held when it ended is not read any more on either server: only what was delivered must agree
+            return long_[:len(short)] == short
         return excused and long_[:len(short)] == short and len(long_) - len(short) <= queued
 
     if any(not same_session(s) for s in set(a[0]) | set(b[0])):
@@ -123,9 +144,13 @@ def run(ctx):
     rng = ctx.rng
     runners = []
     shrunk = set()
-    for h in range(ctx.n(PROFILE['quick'], PROFILE['thorough'])):
-        cfg = hsuite.gen_cfg(rng, PROFILE)
-        ops = [o for o in hist.gen_history(rng, cfg, rng.choice(PROFILE['lengths']), PROFILE['weights']) if o[0] != 'cancelpoll']     # cancelling a long poll is a stimulus of the asyncio server only (threads cannot be cancelled): not part of the equivalence
+    fixed = [(hist.Cfg(), ops) for ops in FIXED()]
+    for h in range(len(fixed) + ctx.n(PROFILE['quick'], PROFILE['thorough'])):
+        if h < len(fixed):
+            cfg, ops = fixed[h]
+        else:
+            cfg = hsuite.gen_cfg(rng, PROFILE)
+            ops = [o for o in hist.gen_history(rng, cfg, rng.choice(PROFILE['lengths']), PROFILE['weights']) if o[0] != 'cancelpoll']     # cancelling a long poll is a stimulus of the asyncio server only (threads cannot be cancelled): not part of the equivalence
         try:
             pair, v, upto = compare(cfg, ops)
         except Exception as e:
